@@ -138,9 +138,13 @@ func c11Accounts() []webUser {
 	}
 }
 
-// c11WellFormed: the textual shape of a bcrypt hash as the install wizard /
-// htpasswd -B produce it; written out here, independent of x/crypto.
-var c11WellFormedRe = regexp.MustCompile(`^\$2[abxy]?\$(0[4-9]|[12][0-9]|3[01])\$[./A-Za-z0-9]{53}$`)
+// c11WellFormed: the textual shape of a bcrypt hash, written out here,
+// independent of x/crypto: $<major><minor>$<cost 04..31>$<53 characters of the
+// bcrypt alphabet>.  Major version: any up to 2 (bcrypt implementations refuse
+// only versions NEWER than theirs: x/crypto computes "$0a$", "$1a$" and "$2a$"
+// alike; found by the thorough tier in round 4, where the shape still said
+// "2" only); minor: any one character or none.
+var c11WellFormedRe = regexp.MustCompile(`^\$[0-2][^$]?\$(0[4-9]|[12][0-9]|3[01])\$[./A-Za-z0-9]{53}$`)
 
 // c11Bcrypt: the oracle: bcrypt.CompareHashAndPassword called directly.
 // 0 nil, 1 ErrMismatchedHashAndPassword, 2 any other error.
